@@ -467,6 +467,9 @@ def _comprehension(it, fr, e, kind):
         if isinstance(first, M.SymRange) and M.try_iterate(it, first) is None and NP.conc(first.step) == 1:
             lo, hi = NP.zi(first.lo), NP.zi(first.hi)
             src = (z3.simplify(z3.If(hi > lo, hi - lo, z3.IntVal(0))), lambda j: lo + j)
+        elif isinstance(first, NDArray) and first.rank == 1 and NP.conc(first.shape[0]) is None:
+            snapa = first.copy()
+            src = (NP.zi(first.shape[0]), lambda j: snapa.at(j))
         elif isinstance(first, SymList) and M.try_iterate(it, first) is None and not it.run.bounded:
             snap = M.snapshot(first) if not isinstance(first, NP.EnumList) else first
             src = (first.n, lambda j: snap.get(j))
@@ -1208,3 +1211,34 @@ def discharge_retry(run, formula, npc=None, nax=None, timeout_ms=10000, extra=()
 
 
 E.discharge = discharge_retry
+
+
+# ------------------------------------------------------------------------------------------ np.geomspace
+GEOMSPACE_ASSUMPTION = ('np.geomspace(a, b, num) (a, b > 0) returns num finite values between min(a, b) and max(a, b), the first equal to a, the last '
+                        '(num >= 2) equal to b (numpy sets the end points exactly)')
+
+
+def _np_geomspace(it, args, kw):
+    start, stop = args[0], args[1]
+    num = kw.get('num', args[2] if len(args) > 2 else 50)
+    run = it.run
+    if not it.truth(NP.zi(num) >= 0):
+        raise PyRaise(it.make_exc('ValueError', ['Number of samples must be non-negative']))
+    a, b = xl(start), xl(stop)
+    if it.truth(z3.Or(xreal.is_zero(a), xreal.is_zero(b))):
+        raise PyRaise(it.make_exc('ValueError', ['Geometric sequence cannot include zero']))
+    run.assumed.add(GEOMSPACE_ASSUMPTION)
+    f = NP.fresh_fn(run, 'geomspace', 1, xreal.XReal)
+    ok = z3.And(xreal.is_fin(a), xreal.is_fin(b), xreal.r(a) > 0, xreal.r(b) > 0)
+    lo = z3.If(xreal.r(a) <= xreal.r(b), xreal.r(a), xreal.r(b))
+    hi = z3.If(xreal.r(a) <= xreal.r(b), xreal.r(b), xreal.r(a))
+    n = NP.zi(num)
+    j = z3.Int('q!%d' % next(_uid))
+    run.axiom(z3.ForAll([j], z3.Implies(z3.And(ok, j >= 0, j < n), z3.And(xreal.is_fin(f(j)), lo <= xreal.r(f(j)), xreal.r(f(j)) <= hi)), patterns=[f(j)]))
+    run.assume(z3.Implies(z3.And(ok, n >= 1), f(z3.IntVal(0)) == a))
+    run.assume(z3.Implies(z3.And(ok, n >= 2), f(n - 1) == b))
+    return NDArray((NP.norm(num),), 'float', lambda i: f(i))
+
+
+for _pkg in ('numpy', 'jax.numpy'):
+    EXTERNAL[_pkg + '.geomspace'] = Builtin('np.geomspace', _np_geomspace)
